@@ -229,7 +229,7 @@ CHECKS["C13"] = {
             "a wildcard prefix, names matching one or two wildcard prefixes, private names, undeclared names) on a "
             "base class declaring Int/ReadOnly/Constant/Event and two wildcards a subclass declaring a longer "
             "wildcard and re-declaring one trait, and a multiple-inheritance subclass whose wildcards come from its "
-            "second base only. Every history up to depth 4 (5 thorough) over get / set(int) / "
+            "second base only. Every history up to depth 3 (5 thorough) over get / set(int) / "
             "set(str) / set(None) / del / add_trait / a second add_trait without removal / remove_trait on an "
             "instance of each class, with *definition "
             "of the subclass* as an event. Each step must give the same outcome class and value as on a twin "
